@@ -65,7 +65,7 @@ theorem moveOut_pre {s : State} (hw : WF s) {x r : Nat} {R : Rep} (hx : repOf s 
   unfold moveOut
   have hinvS : InvS ((weakNotify r s).setSlot x (some ⟨none, false⟩)) := by
     refine { repAlive := ?_, repUniq := ?_, connReg := ?_, cbsConn := ?cc, cbsNodup := ?_, parentOk := ?_,
-             trkReg := ?_, trkEnt := ?_, trkNodup := ?_, refOk := ?_, ownOk := ?_, repBound := ?_ }
+             trkReg := ?_, trkEnt := ?_, trkNodup := ?_, refOk := ?_, ownOk := ?_, nestOk := ?_, anonBound := ?_, repBound := ?_ }
     case cc =>
       intro q Q c hQ hcQ
       simp only [slotg_simp] at hQ ⊢
@@ -86,7 +86,8 @@ theorem moveOut_pre {s : State} (hw : WF s) {x r : Nat} {R : Rep} (hx : repOf s 
   · intro w hwx; st_simp; simp [hwx]
   · intro q hq; st_simp; simp [hq]
 
-theorem wf_mvS {s : State} (hw : WF s) {j i : Nat} (hj : s.slots j = none) : WF (apply (.mvS j i) s) := by
+theorem wf_mvS {s : State} (hw : WF s) {j i : Nat} (hj : s.slots j = none) (hnm : j < anonBase) :
+    WF (apply (.mvS j i) s) := by
   simp only [apply]
   cases hi : s.slots i with
   | none => exact hw
@@ -108,8 +109,8 @@ theorem wf_mvS {s : State} (hw : WF s) {j i : Nat} (hj : s.slots j = none) : WF 
       · simp only [hp, if_true]
         split
         · exact hnone _
-        · obtain ⟨N, -, hF⟩ := fresh_cloneRep hw hR
-          exact wf_adopt_fresh hF _ hj
+        · obtain ⟨N, hF⟩ := fresh_cloneRep hw r
+          exact wf_adopt_fresh hF _ hj hnm
       · simp only [hp]
         have hRp : R.parent = none := by
           cases hpp : R.parent with
@@ -117,15 +118,15 @@ theorem wf_mvS {s : State} (hw : WF s) {j i : Nat} (hj : s.slots j = none) : WF 
           | some p => exact absurd ((hasParent_iff s i).mpr ⟨r, R, p, hrep, hR, hpp⟩) hp
         obtain ⟨h1, h2, h3, h4, h5, h6, -⟩ := moveOut_pre hw hrep hR hRp
         have hji : j ≠ i := by intro he; subst he; rw [hi] at hj; cases hj
-        exact wf_adoptSet h1 h2 _ h3 h4 hRp rfl h5 (by rw [h6 j hji]; exact hj)
+        exact wf_adoptSet h1 h2 _ h3 h4 hRp rfl h5 (by rw [h6 j hji]; exact hj) hnm
 
 /-! ### the exchange on a state with a fresh representation -/
 
 theorem wf_exchange_fresh {s sN : State} {N : Rep} (hF : Fresh s sN N) {d : Nat}
-    (hd : (s.slots d).isSome = true)
+    (hd : (s.slots d).isSome = true) (hnm : d < anonBase)
     (he : (exchangeRep d s.nextRep sN).err = false) : WF (exchangeRep d s.nextRep sN) := by
   have hdN : ∃ D, sN.slots d = some D := by
-    have := hF.aliveS d; rw [hd] at this
+    have := hF.aliveS d hnm; rw [hd] at this
     cases hx : sN.slots d with
     | none => rw [hx] at this; simp at this
     | some D => exact ⟨D, rfl⟩
